@@ -7,16 +7,30 @@ silence and lateness: no step is ever forced). Helper lemmas: `NeoModel/Proofs/D
 
 All safety theorems quantify over every `n ≥ 1` (so in particular every `n = 3f+1`), every reachable
 state, i.e. every schedule of deliveries, losses, duplications, timeouts and sends, and any number of
-validators that stay silent for any stretch of the run. The tie to the real code is the trace check of
-`Driver/Dbft.lean`: on every run of the check, 4 (thorough: also 7) real `consensus.Service` instances
-are executed under adversarial schedules and every payload they emit / transition they make is checked to
-be an ENABLED step of this model in the state reached by the preceding trace.
+validators that stay silent for any stretch of the run.
+
+Sections 1–5: the guarded-command model (agreement, its invariants, validity, liveness under synchrony, the
+dBFT 2.0 liveness lock). Section 6: a committed block passes C06's model of Blockchain.AddBlock (the backup's
+checks of a PrepareRequest: Model/DbftProposal.lean). Section 7: the witness of the block handed to the ledger
+(known finding `relabelled-commit-witness`). Section 8: the deterministic validator machine
+(Model/DbftMach.lean) REFINES the guarded-command model, recovery messages, cached payloads and view changes
+included (Proofs/DbftSim*.lean), so sections 1–3 hold for networks of machines. Timer arithmetic and the
+real-time reading of the synchronous round: Proofs/DbftTimed.lean.
+
+The tie to the real code (`Driver/Dbft.lean`, on every run of the check): 4 (also 7) real `consensus.Service`
+instances are executed under adversarial schedules and a fixed corpus; after EVERY event the exact sequence of
+things each real service did and its complete dBFT context must equal what the machine model computes, and
+every payload emitted / transition made must be an ENABLED step of the guarded-command model.
 -/
 import NeoModel.Model.Dbft
 import NeoModel.Proofs.DbftRun
 import NeoModel.Proofs.DbftLock
 import NeoModel.Proofs.DbftLive
 import NeoModel.Proofs.DbftChain
+import NeoModel.Proofs.DbftProposal
+import NeoModel.Proofs.DbftWitness
+import NeoModel.Proofs.DbftTimed
+import NeoModel.Proofs.DbftSimX
 namespace NeoModel.Dbft
 
 /-! ### 1. Agreement -/
@@ -308,5 +322,105 @@ example : (run cfg4 init lockSched).map (fun s =>
     (decide (Enabled cfg4 s (.sendChangeView 3)), decide (Enabled cfg4 s (.sendRecMsg 0 [.commit 0 lockB])),
      decide (Enabled cfg4 s (.deliver 1 (it (.commit 0 lockB)))), decide (Enabled cfg4 s (.accept 0 lockB)))) =
     some (true, true, true, false) := by decide
+
+/-! ### 6. Validity of committed blocks against the ledger's own checks (C06's model of AddBlock) -/
+
+/-- C19 (committed_block_valid at full strength): take for `verify j b` "validator j, holding the ledger of
+node `t'`, ran the backup's checks of a PrepareRequest — `verifyRequest`, `hasAllTransactions`, `verifyBlock`,
+modelled in Model/DbftProposal.lean as written in pkg/consensus — on the request block `b` stands for, and
+`blk` is the block assembled from it with a witness that verifies for the previous block's consensus address"
+(`Proposal.Answered`). Then in every reachable state, for every `n` with `M ≥ 2`, a block on any validator's
+ledger passes `Blockchain.AddBlock` (C06's model `AddBlock.addBlock`: index, state-root flag, previous hash,
+timestamp, witness, Merkle root, duplicate check, the transaction loop with its scratch pool, execution) on
+`t'`: M validators signed it, M prepared it, so some BACKUP checked it. -/
+theorem committed_block_passes_addBlock {L : Type} (c : Cfg) (hm : 2 ≤ c.m) (s : State) (hr : Reachable c s)
+    (i : Nat) (b : Block) (hb : b ∈ (s.nodes i).chain)
+    (env : AddBlock.Env L) (t' : AddBlock.Node L) (blk : AddBlock.Block)
+    (hverify : ∀ j, c.verify j b = true → Proposal.Answered env t' blk) :
+    (AddBlock.addBlock env t' blk).2 = none := by
+  have hn : 0 < c.n := by unfold Cfg.m at hm; omega
+  obtain ⟨_, hp, hck, _⟩ := committed_block_valid c hn s hr i b hb
+  obtain ⟨j, _, hne, hj⟩ := countP_other c.n (c.primary b.h b.v) _ (Nat.le_trans hm hp)
+  simp only [preparedBy, decide_eq_true_eq] at hj
+  exact Proposal.Answered.accepted env t' blk (hverify j ((hck j hj).2 hne))
+
+open Proposal in
+-- non-vacuity: the concrete backup of Proofs/DbftProposal.lean answers `reqOK`; the assembled block is `Answered`
+-- on another validator's node (same ledger, another mempool) and that node's AddBlock takes it
+example : Answered exEnv exOther (blockOf exEnv exBackup exTip reqOK 77 7 84 1) :=
+  ⟨exBackup, exLim, exTip, 5, reqOK, 77, 7, 84, 1, rfl, by decide, by decide, by decide, by decide, by decide,
+   by decide, by decide, by decide, by decide, by decide, by decide, by decide, rfl, rfl, rfl, rfl⟩
+
+/-! ### 7. The witness of the block a validator hands to its ledger (machine model, Model/DbftMach.lean)
+
+Full statement: in every run of honest validators, the block a validator's consensus hands to its ledger
+(`Out.block b sigs`: consensus.go:646-697 processBlock / getBlockWitness) carries M signatures OF THAT BLOCK, so the
+validator's own ledger and every other one accept it. FALSE for the code as written: `relabelled_commit_in_witness`
+below is the replay of known finding `relabelled-commit-witness` (scripted case 0 of the harness reproduces it on
+the real services). Proved: the statement under the hypothesis that every Commit the validator holds for its view
+signs its header — which `onCommit` guarantees for every Commit that arrives while the header is at hand
+(`Mach.onCommit_checked`); the gap is a Commit stored BEFORE the PrepareRequest (dbft.go:355-357 checks the stored
+Commits while MakeHeader is still nil), and the only honest source of a wrong one is recovery_message.go GetCommits,
+which labels every relayed Commit with the recovery message's view. -/
+
+/-- C19 (block witness, partial): if every Commit held for the current view signs the header, the block handed to
+the ledger carries only signatures of that block. -/
+theorem block_witness_valid_partial (e : Mach.Env) (w : Mach.W) (b : Block) (hh : w.nd.header = some b)
+    (hs : Mach.CommitsSign w.nd b) (b' : Block) (sigs : List (Nat × Bool))
+    (hout : Mach.Out.block b' sigs ∈ (Mach.checkCommit e w).out) :
+    Mach.Out.block b' sigs ∈ w.out ∨ (b' = b ∧ ∀ s ∈ sigs, s.2 = true) :=
+  Mach.checkCommit_block_valid e w b hh hs b' sigs hout
+
+/-- C19 (NEGATION witness, known finding `relabelled-commit-witness`): seven honest validators, height 1. The events
+below are what validator 5 sees in the harness' scripted case `relabelled-commit` (only delays and one duplicate-free
+reordering; every payload was sent by its honest sender): it ends up handing its ledger block (1, view 1, p2) with
+validator 6's signature of the VIEW-0 block in the witness. -/
+theorem block_witness_invalid_witness :
+    (Mach.runEvents Mach.wEnv 5 (Mach.initNode Mach.wEnv 5) Mach.wEvents).2 =
+      [.block Mach.wb2 [(0, true), (2, true), (3, true), (5, true), (6, false)]] :=
+  Mach.relabelled_commit_in_witness
+
+/-! ### 8. The validator machines refine the guarded-command model (so sections 1–3 hold for them)
+
+`Model/DbftMach.lean` is the deterministic machine of one validator — the machine `Driver/Dbft.lean` compares,
+after every event, with the real service (exact sequence of actions, full dBFT context). `Model/DbftMachNet.lean`
+is a network of `n` such machines under arbitrary delivery, loss, duplication, timer ticks, transaction arrivals,
+block relay and mempool changes. `Proofs/DbftSim*.lean` prove that every run of that network is simulated by a run
+of the guarded-command model: every payload a machine holds, caches or finds in flight is a TRUE claim about what
+validators prepared, signed or asked for; a machine broadcasts/accepts/changes view only when the corresponding
+abstract guard can be made to hold by delivering (copies of) what was truly broadcast. RecoveryMessages included:
+`Mach.prog_onRecoveryMessage` is "processing a RecoveryMessage is processing the payloads it carries" (the
+ChangeViews, the request re-addressed to the receiver's primary, the responses with the preparation hash the
+event loop filled in — even a wrong one —, the Commits re-labelled with the message's view), each of which is a
+true claim, so nothing a recovery message makes a validator do leaves the model. -/
+
+/-- C19 (refinement): every reachable network of validator machines is simulated by a reachable state of the
+guarded-command model with the same ledgers. -/
+theorem machines_refine_model (e : Mach.Env) (ms : Mach.MNet) (hr : Mach.MReachable e ms) :
+    ∃ as : State, Reachable (Mach.cfgOf e) as ∧ ∀ i, i < e.n →
+      (as.nodes i).chain = (ms.nodes i).chain ∧ (as.nodes i).height = (ms.nodes i).chain.length + 1 ∧
+      ((ms.nodes i).bi ≠ 0 → (ms.nodes i).blockProcessed = false →
+        (ms.nodes i).bi = (as.nodes i).height ∧ (ms.nodes i).view = (as.nodes i).view) :=
+  Mach.mach_refines e ms hr
+
+/-- C19 (agreement, for the machines that are tied to the real services): in every reachable network of validator
+machines — every schedule, with recovery, caching and re-labelled Commits — two blocks of the same height on any two
+validators' ledgers are equal. -/
+theorem machines_agree (e : Mach.Env) (hn : 0 < e.n) (ms : Mach.MNet) (hr : Mach.MReachable e ms) (i j : Nat)
+    (hi : i < e.n) (hj : j < e.n) (b b' : Block)
+    (hb : b ∈ (ms.nodes i).chain) (hb' : b' ∈ (ms.nodes j).chain) (hh : b.h = b'.h) : b = b' :=
+  Mach.mach_agreement e hn ms hr i j hi hj b b' hb hb' hh
+
+/-- C19: the Commit a machine holds as its own is a block M validators prepared. -/
+theorem machine_commit_prepared (e : Mach.Env) (ms : Mach.MNet) (hr : Mach.MReachable e ms) (i : Nat) (hi : i < e.n)
+    (x : Mach.Hd) (sb : Block) (hs : Mach.slot (ms.nodes i).commit i = some (.commit x sb)) :
+    ∃ as : State, Reachable (Mach.cfgOf e) as ∧ sb ∈ (as.nodes i).myCommits ∧
+      (Mach.cfgOf e).m ≤ countP (Mach.cfgOf e).n (preparedBy as sb) :=
+  Mach.mach_own_commit e ms hr i hi x sb hs
+
+-- non-vacuity: two machines (M = 2) run a whole round — start, proposal, response, two Commits — and both ledgers
+-- hold the block (`Mach.xRun`, evaluated through `Mach.napply`)
+example : ∃ ms, Mach.MReachable Mach.xEnv ms ∧ (ms.nodes 0).chain = [⟨1, 0, 1⟩] ∧ (ms.nodes 1).chain = [⟨1, 0, 1⟩] :=
+  Mach.mach_reachable_nonvacuous
 
 end NeoModel.Dbft
